@@ -137,6 +137,7 @@ RULES = [
     ("X-BUFFER", "buffering predicates (ordered or aggregate) and recursive expression predicates [shared]", lambda ctx: __import__("extra").buffering_predicates(ctx)),
     ("X-PIPELINE", "the per-entry pipeline of check_file evaluated on its scenario table (filter, count, row, buffer key, separator, closed output) [shared]", lambda ctx: __import__("cfile").pipeline(ctx)),
     ("C08-R4", "inside a group, function arguments are evaluated over that group's rows (nested aggregates)", lambda ctx: __import__("gcev").nested_scope(ctx)),
+    ("X-EXPRWALK", "recursive walks of an expression's value layer visit left, right and the further arguments [shared]", lambda ctx: __import__("extra2").value_walks_reach_arguments(ctx)),
 ]
 
 EXPLANATION = (
